@@ -1299,6 +1299,15 @@ class SymEx:
             if isinstance(e, (ast.Tuple, ast.List)):
                 items = [literal(x) for x in e.elts]
                 return None if None in items else ("tuple", tuple(items))
+            if isinstance(e, ast.Call) and isinstance(e.func, ast.Name) and e.func.id == "range" and not e.keywords and 1 <= len(e.args) <= 3:
+                # range(<integer literals>) IS the tuple it enumerates (`_E, _X, _Y, _Z = range(4)`), unless the module re-binds `range`
+                bounds = [literal(a) for a in e.args]
+                if all(b is not None and b[0] == "const" and type(b[1]) is int for b in bounds) and not any(
+                    isinstance(n, ast.Name) and n.id == "range" and isinstance(n.ctx, ast.Store) for n in ast.walk(mod.tree)
+                ) and (len(bounds) < 3 or bounds[2][1] != 0):
+                    numbers = range(*[b[1] for b in bounds])
+                    if len(numbers) <= 64:
+                        return ("tuple", tuple(("const", i) for i in numbers))
             return None
 
         value = literal(stmt.value)
